@@ -145,6 +145,41 @@ struct gsnap { uint64_t cell_obj, cell_off; int cell_st, cell_val; _Bool tok_on;
 #define PRE_CELL_IN(gs, sn, lo, hi) ((gs).cell_obj == (sn).data_obj && (gs).cell_off >= (sn).data_off + (uint64_t)(lo) * ESZ && \
                                     (gs).cell_off < (sn).data_off + (uint64_t)(hi) * ESZ)
 
+/* ------------------------------------------------------------------------------------------------ operation-level helpers */
+extern _Bool g_alias;      /* the value argument is element g_src of the container itself */
+extern uint64_t g_src;
+#if FLAVOUR == FL_STATIC
+#define V_LIMIT ((uint64_t)g_N)
+#define V_LIMIT_EXC L0_EXC_OUT_OF_RANGE
+#define V_DYNAMIC 0
+#else
+#define V_LIMIT ((uint64_t)KMAX)
+#define V_LIMIT_EXC L0_EXC_OVERFLOW
+#define V_DYNAMIC 1
+#endif
+#if FLAVOUR == FL_STD
+#define V_INLINE_PRE 0
+#else
+#define V_INLINE_PRE (!pre_self.heap)
+#endif
+/* an object outside the container that may carry the tracked cell / token */
+#define EXT_OK(v) ((g_cell_obj != OBJ(v) || (g_cell_off == OFF(v) && g_cell_st == ST_LIVE)) && (!g_tok_on || g_tok_obj != OBJ(v) || g_tok_off == OFF(v)))
+/* value argument: element g_src of the container, or a live object outside it */
+#define ARG_REQ(v) ((g_alias ==> (g_src < V_SIZE(self) && (v) == V_DATA(self) + g_src)) && (!g_alias ==> (__CPROVER_is_fresh(v, ESZ) && EXT_OK(v))))
+#define PRE_TOK_AT(v) (pre_g.tok_on && pre_g.tok_obj == OBJ(v) && pre_g.tok_off == OFF(v))
+/* old elements [lo,hi) are now at their old index + shift */
+#define V_ELEMS_KEPT(lo, hi, shift) (!PRE_TOK_IN(pre_g, pre_self, lo, hi) || TOK_AT(V_DATA(self), PRE_TOK_IDX(pre_g, pre_self) + (shift)))
+/* old elements [lo,hi) no longer exist */
+#define V_ELEMS_GONE(lo, hi) (!PRE_TOK_IN(pre_g, pre_self, lo, hi) || !g_tok_on)
+/* the slots [lo,hi) hold the value the argument had before the call */
+#define V_NEW_CELLS_HAVE(lo, hi, v) (!(PRE_TOK_AT(v) && CELL_IN(V_DATA(self), lo, hi)) || (g_cell_st == ST_LIVE && g_cell_val == pre_g.tokval))
+#define V_NEW_CELLS_INIT(lo, hi) (!CELL_IN(V_DATA(self), lo, hi) || (g_cell_st == ST_LIVE && (g_cell_val == L0_VAL_INIT || CAT_TC)))
+#define V_NO_REALLOC (V_DATA(self) == pre_self.data && V_CAPA(self) == pre_self.capa && g_nalloc == pre_g.nalloc && g_nrealloc == pre_g.nrealloc && g_ndealloc == pre_g.ndealloc)
+#define V_UNTOUCHED (V_SIZE(self) == pre_self.size && V_CAPA(self) == pre_self.capa && V_DATA(self) == pre_self.data && G_UNCHANGED(pre_g))
+#define V_STRONG (l0_exc == 0 || (V_SIZE(self) == pre_self.size && V_ELEMS_KEPT(0, pre_self.size, 0)))
+#define V_EXC_KINDS (l0_exc == 0 || l0_exc == V_LIMIT_EXC || l0_exc == L0_EXC_BAD_ALLOC || l0_exc == L0_EXC_ELEM)
+#define V_GREW_ONCE (g_nalloc + g_nrealloc == pre_g.nalloc + pre_g.nrealloc + 1)
+
 extern struct vsnap pre_self, pre_o;
 extern struct gsnap pre_g;
 #endif
